@@ -19,7 +19,7 @@ from .kernel import H, Sim, Violation
 from .scenarios import BaseScenario
 from .snapshot import ustr
 
-EXCLUDED = {"on_file", "uid", "parent", "workspace", "h5file", "repack", "visual_parameters", "image", "tag", "entity_type", "association",
+EXCLUDED = {"on_file", "uid", "parent", "workspace", "h5file", "repack", "visual_parameters", "image", "tag", "association",
             "properties", "property_group_type", "depths", "primitive_type", "colour", "map"}
 SURVEY_ATTRS = {"ab_cell_id", "base_stations", "channels", "crossline_offset", "current_electrodes", "inline_offset", "input_type", "loop_radius", "pitch",
                 "potential_electrodes", "receivers", "relative_to_bearing", "roll", "timing_mark", "transmitters", "tx_id_property", "unit", "vertical_offset",
@@ -109,7 +109,27 @@ def _values(r, ent):
     raise Skip
 
 
+def _entity_type(r, ent):
+    """A data type that is NOT in the file yet (freshly built, or a copy of the current one) assigned to a stored data set."""
+    from geoh5py.data import DataType, FloatData, IntegerData, TextData
+
+    if not isinstance(ent, (FloatData, IntegerData, TextData)):
+        raise Skip
+    if r.random() < 0.5:
+        return DataType(ent.workspace, primitive_type=ent.entity_type.primitive_type, name=build.name(r), units=r.choice(["m", "ppm", None]))
+    return ent.entity_type.copy(name=build.name(r))
+
+
+def _type_attrs_live(ent):
+    t = ent.entity_type
+    out = {"<type> ID": ustr(t.uid), "<type> Name": t.name}
+    if getattr(t, "units", None) is not None:
+        out["<type> Units"] = t.units
+    return out
+
+
 DOMAIN = {
+    "entity_type": _entity_type,
     "name": lambda r, e: build.name(r),
     **{f: (lambda r, e: r.random() < 0.5) for f in FLAGS},
     "modifiable": lambda r, e: r.random() < 0.5,
@@ -164,7 +184,7 @@ INVALID = {
 }
 TYPE_VARYING = {"cost", "end_of_hole"}
 COUPLED = {"dip", "vertical", "surveys", "end_of_hole", "metadata", "coordinate_reference_system", "parts", "cells", "values", "vertices", "collar", "octree_cells",
-           "u_count", "v_count", "w_count", "value_map", "color_map", "options", "number_of_bins", "units"}
+           "u_count", "v_count", "w_count", "value_map", "color_map", "options", "number_of_bins", "units", "entity_type"}
 DERIVED = ["centroids", "n_cells", "extent", "locations", "n_vertices", "shape"]
 
 TARGETS = (["obj:" + c for c in build.OBJECT_CLASSES] + ["grp:" + c for c in build.GROUP_CLASSES]
@@ -300,7 +320,10 @@ class SetterScenario(BaseScenario):
             vmap = getattr(owner, "value_map", None)
             out["value_map"] = {str(k): v for k, v in vmap.map.items()} if vmap is not None else None
             return out
-        return snapshot.record(owner)
+        rec = snapshot.record(owner)
+        if rec["kind"] == "data":
+            rec["attrs"].update(_type_attrs_live(owner))      # which type the data set points at is part of its stored state
+        return rec
 
     def raw_view(self, ws, ref, owner):
         from geoh5py.shared import EntityType
@@ -322,7 +345,14 @@ class SetterScenario(BaseScenario):
             return None
         tree = rawgeoh5.decode_tree(raw)
         rec = tree.get(ustr(owner.uid))
-        return compare.normalise_raw(rec) if rec else None
+        rec = compare.normalise_raw(rec) if rec else None
+        if rec and rec["kind"] == "data":
+            node = raw["types"].get("Data types", {}).get(rec.get("type_uid")) or {"attrs": {}}
+            rec["attrs"]["<type> ID"] = rec.get("type_uid")
+            for key in ("Name", "Units"):
+                if node["attrs"].get(key) is not None:
+                    rec["attrs"]["<type> " + key] = node["attrs"][key]
+        return rec
 
     def diff_views(self, live, raw, la="LIVE", lb="STORED"):
         if raw is None:
@@ -590,6 +620,7 @@ class SetterScenario(BaseScenario):
 RELATED = {
     "dip": ["Vertical", "Dip"], "vertical": ["Dip", "Vertical"], "surveys": ["End of hole", "surveys", "trace"], "collar": ["Collar", "trace"],
     "coordinate_reference_system": ["metadata"], "parts": ["cells"], "cells": ["cells"], "vertices": ["vertices", "cells"], "name": ["name"], "metadata": ["metadata"],
+    "entity_type": ["<type> ID", "<type> Name", "<type> Units", "Primitive type"],
     "values": ["values"], "u_count": ["NU", "U Count", "octree_cells"], "v_count": ["NV", "V Count", "octree_cells"], "w_count": ["NW", "octree_cells"],
 }
 
